@@ -39,7 +39,7 @@ def cases(draw):
         d0 = draw(st.sampled_from([-350, -128, 0, 3]))
         return {"ny": draw(st.integers(1, 3)), "nx": draw(st.integers(1, 4)),
                 "disps": [d0 + k / subpix for k in range(nd)] if subpix != 1 else [d0 + k for k in range(nd)],
-                "subpix": subpix, "type": draw(st.sampled_from(["min", "max"])), "tile": None, "patches": [],
+                "subpix": subpix, "type": draw(st.sampled_from(["min", "max"])), "warm": draw(st.sampled_from([None, None, "same", "other"])), "tile": None, "patches": [],
                 "long": {"seed": draw(st.integers(0, 10 ** 6)), "nan": draw(st.sampled_from([0.0, 0.1, 0.6]))},
                 "invalid": draw(st.sampled_from([-9999, "NaN"])), "nconf": 0, "mask_vals": [0]}
     nd = draw(st.integers(1, 7))
@@ -72,7 +72,7 @@ def cases(draw):
     nconf = draw(st.integers(0, 2))
     mask_vals = draw(st.lists(st.sampled_from([0, 0, 1, 2, 4, 64, 128, 6, 66, 130, 2048]), min_size=1, max_size=6))
     return {
-        "ny": ny, "nx": nx, "disps": disps, "subpix": subpix, "type": draw(st.sampled_from(["min", "max"])),
+        "ny": ny, "nx": nx, "disps": disps, "subpix": subpix, "type": draw(st.sampled_from(["min", "max"])), "warm": draw(st.sampled_from([None, None, "same", "other"])),
         "tile": tile, "patches": patches, "invalid": inv, "nconf": nconf, "mask_vals": mask_vals,
         # the volume may announce a window offset (attribute offset_row_col); its frame carries whatever flags it carries
         "off": draw(st.sampled_from([0, 0, 1, 2])),
@@ -138,6 +138,11 @@ def body(ctx: Ctx, p: dict) -> None:
     inv_val = math.nan if inv_cfg in ("NaN", "NaN-string") else float(inv_cfg)
     cfg_inv = "NaN" if inv_cfg == "NaN-string" else (math.nan if inv_cfg == "NaN" else inv_cfg)
     wta = disparity.AbstractDisparity(disparity_method="wta", invalid_disparity=cfg_inv)
+    if p.get("warm"):
+        # the object has already served: a small volume of the same or of the other kind of measure went through it
+        wtype = p["type"] if p["warm"] == "same" else ("max" if p["type"] == "min" else "min")
+        wcv = np.array([[[1.0, 2.0], [np.nan, 0.5], [3.0, np.nan]], [[0.0, 0.0], [2.0, 1.0], [np.nan, np.nan]]], dtype=np.float32)
+        wta.to_disp(build.cost_volume_dataset(wcv, [0, 1], wtype, 0, 1, np.zeros((2, 3), dtype=np.uint16), None))
     out = wta.to_disp(cvds)
 
     exp, best = reference(cv_np, disps, p["type"], inv_val)
@@ -181,6 +186,8 @@ def body(ctx: Ctx, p: dict) -> None:
         ties = ((cv_np == best[:, :, None]) & finite).sum(axis=2) >= 2
     regular = finite.any(axis=2) & ~ties
     classes = []
+    if p.get("warm"):
+        classes.append("object-served-before-" + p["warm"] + "-measure")
     if max(p["ny"], p["nx"]) >= 99:
         classes.append("crosses-block-boundary")
     if p["type"] == "max":
